@@ -29,11 +29,14 @@ def streams(tier, seed):
     if tier == "quick":
         return [dict(tag="main", count=4, seed=seed, extra={"tier": "quick", "pdr-cap": 4, "jobs": 8})]
     out = []
-    for k in range(4):
+    # 40 systems: 24 with every fault kind at every BMC point, 16 (8 of them against cvc5) with the secondary kinds rotating
+    for k in range(3):
         out.append(dict(tag="z3-%d" % k, count=8, seed=seed * 100 + k,
                         extra={"tier": "thorough", "pdr-cap": 10, "jobs": 10, "live-every": 40, "secondary-bmc": "all", "secondary-pdr": "rotate"}))
+    out.append(dict(tag="z3-3", count=8, seed=seed * 100 + 3,
+                    extra={"tier": "thorough", "pdr-cap": 10, "jobs": 10, "live-every": 40, "secondary-bmc": "rotate", "secondary-pdr": "rotate"}))
     out.append(dict(tag="cvc5", count=8, seed=seed * 100 + 7,
-                    extra={"tier": "thorough", "solver": "cvc5", "pdr-cap": 10, "jobs": 10, "live-every": 40, "secondary-bmc": "all", "secondary-pdr": "rotate"}))
+                    extra={"tier": "thorough", "solver": "cvc5", "pdr-cap": 10, "jobs": 10, "live-every": 40, "secondary-bmc": "rotate", "secondary-pdr": "rotate"}))
     return out
 
 
